@@ -14,10 +14,24 @@ EXTENDS MachineProps, Json, IOUtils
 Rec == ndJsonDeserialize(IOEnv.TRACE)
 N   == Len(Rec)
 
-WP(p) == W(p[1], p[2])                     \* JSON pair [v, m] -> word
 
-\* initial memory of the run whose header is record h: dense segments over a fill word
+
+OsBlocks == IF N >= 1 /\ Rec[1].ev = "Os" THEN Rec[1].blocks ELSE <<>>
+RECURSIVE FlatFrom(_, _)
+FlatFrom(bs, k) == IF k > Len(bs) THEN <<>> ELSE bs[k].w \o FlatFrom(bs, k + 1)
+OsFlat == FlatFrom(OsBlocks, 1)                   \* word at address a is OsFlat[a + 1]
+OsContiguous == /\ Len(OsBlocks) >= 1 /\ OsBlocks[1].s = 0
+                /\ \A k \in 2..Len(OsBlocks) : OsBlocks[k].s = OsBlocks[k-1].s + Len(OsBlocks[k-1].w)
+InOs(a) == a < Len(OsFlat)
+
+\* initial memory of the run whose header is record h: dense segments over a fill word.  A `light`
+\* header (replayed behaviours: thousands of short runs) carries no segments: the machine is a new
+\* Known-strategy simulator, whose memory NewOK prescribes (and checks on every ordinary header).
 TraceBaseRd(h, a) ==
+  IF "light" \in DOMAIN Rec[h]
+  THEN IF InOs(a) THEN (IF OsFlat[a + 1] >= 0 THEN W(OsFlat[a + 1], 65535) ELSE W(Rec[h].fill[1], 0))
+       ELSE IF a >= 65024 THEN W(0, 65535) ELSE WP(Rec[h].fill)
+  ELSE
   LET segs == Rec[h].segs
       hit  == { k \in 1..Len(segs) : segs[k].s <= a /\ a < segs[k].s + Len(segs[k].w) }
   IN IF hit = {} THEN WP(Rec[h].fill)
@@ -30,8 +44,6 @@ vars == <<l, st, why>>
 \* conversions from the JSON vocabulary
 PairsFn(ps) == [a \in { q[1] : q \in {ps[k] : k \in 1..Len(ps)} } |->
                   (CHOOSE q \in {ps[k] : k \in 1..Len(ps)} : q[1] = a)[2]]
-DevOf(d) == [k |-> d.k, ie |-> B(d.ie), val |-> d.val, time |-> d.time, en |-> B(d.en),
-             lo |-> d.lo, hi |-> d.hi, vect |-> d.vect, prio |-> d.prio, slot |-> d.slot]
 FrameOf(f) == [caller |-> f.caller, callee |-> f.callee, ft |-> f.ft, fp |-> WP(f.fp),
                args |-> [i \in 1..Len(f.args) |-> WP(f.args[i])]]
 FlagsOf(f) == [strict |-> B(f.strict), real |-> B(f.real), dbg |-> B(f.dbg), ignp |-> B(f.ignp)]
@@ -88,15 +100,8 @@ Mismatch(s, p) == { n \in Fields : ~FieldOK(n, s, p) }
 ---------------------------------------------------------------------------
 \* C29 / C31: what a new simulator holds.  Rec[1] is the `Os` record (blocks of the
 \* built-in OS object file, contiguous from x0000).
-OsBlocks == IF N >= 1 /\ Rec[1].ev = "Os" THEN Rec[1].blocks ELSE <<>>
-RECURSIVE FlatFrom(_, _)
-FlatFrom(bs, k) == IF k > Len(bs) THEN <<>> ELSE bs[k].w \o FlatFrom(bs, k + 1)
-OsFlat == FlatFrom(OsBlocks, 1)                   \* word at address a is OsFlat[a + 1]
-OsContiguous == /\ Len(OsBlocks) >= 1 /\ OsBlocks[1].s = 0
-                /\ \A k \in 2..Len(OsBlocks) : OsBlocks[k].s = OsBlocks[k-1].s + Len(OsBlocks[k-1].w)
-InOs(a) == a < Len(OsFlat)
-
 NewOK(h) ==
+  "light" \in DOMAIN Rec[h] \/
   LET r == Rec[h]  p == r.proj  segs == r.segs
       known == r.init.k = "known"
       fillw == IF known THEN <<r.init.v, 0>> ELSE <<0, 0>>
@@ -149,10 +154,6 @@ ApplyStep(s, r) ==
          \cup (IF ObsProp(ClearObs(s), r) THEN {} ELSE {"obsprop"})
          \cup (IF StrictRel(s, env) THEN {} ELSE {"strictrel"})
          \cup (IF IntGate(s, r) THEN {} ELSE {"intgate"})]
-
-SetPortsFor(s, ports, id) ==
-  [s EXCEPT !.ports = [a \in (DOMAIN @) \cup SeqSet(ports) |->
-                          IF a \in SeqSet(ports) THEN id ELSE @[a]]]
 
 BpOf(b) == [k |-> b.k, a |-> b.a, c |-> [k |-> b.c.k, v |-> b.c.v]]
 EnvsOf(es) == [i \in 1..Len(es) |-> [lockK |-> B(es[i].lockK), lockD |-> B(es[i].lockD), ints |-> es[i].ints,
@@ -223,26 +224,9 @@ ApplyHost(s0, r) ==
     [] r.op = "flag"   -> ok([s EXCEPT !.flags = FlagsOf(r.flags)])
     [] r.op = "clearicount" -> ok([s EXCEPT !.icount = 0])
     [] r.op = "srdef"  -> ok([s EXCEPT !.srdefs = (r.addr :> [some |-> TRUE, cc |-> B(r.cc), n |-> r.n, regs |-> r.regs]) @@ @])
-    [] r.op = "mmap"   ->
-         LET can == r.a >= IO_START /\ r.a \notin DOMAIN s.ireg IN
-         [st |-> IF can THEN [s EXCEPT !.ireg = (r.a :> r.reg) @@ @] ELSE s,
-          bad |-> IF (r.res = "ok") = can THEN {} ELSE {"res"}]
-    [] r.op = "munmap" ->
-         [st |-> [s EXCEPT !.ireg = [a \in (DOMAIN @) \ {r.a} |-> @[a]]],
-          bad |-> IF (r.res = "ok") = (r.a \in DOMAIN s.ireg) THEN {} ELSE {"res"}]
-    [] r.op = "adddev" ->
-         LET can == \A a \in SeqSet(r.ports) : a >= IO_START /\ PortDev(s, a) = 0
-             id  == Len(s.devs)
-         IN [st |-> IF can THEN SetPortsFor([s EXCEPT !.devs = Append(@, DevOf(r.dev))], r.ports, id) ELSE s,
-             bad |-> IF (IF can THEN r.res = id ELSE r.res = -1) THEN {} ELSE {"res"}]
+    [] r.op \in {"mmap", "munmap", "adddev", "rmdev", "rmem", "wmem"} -> DevOp(s, r)
     [] r.op = "timercfg" ->
          ok([s EXCEPT !.devs[r.id + 1] = DevOf(r.dev)])
-    [] r.op = "rmem"   ->
-         LET x == ReadMem(s, r.a, [priv |-> B(r.ctx.priv), strict |-> B(r.ctx.strict), fx |-> B(r.ctx.fx), track |-> B(r.ctx.track)], EnvOf(r.env))
-         IN [st |-> x.st, bad |-> IF x.e = (IF r.res = "ok" THEN "none" ELSE r.res) /\ (x.e = "none" => x.w = WP(r.w)) THEN {} ELSE {"res"}]
-    [] r.op = "wmem"   ->
-         LET x == WriteMem(s, r.a, WP(r.w), [priv |-> B(r.ctx.priv), strict |-> B(r.ctx.strict), fx |-> B(r.ctx.fx), track |-> B(r.ctx.track)], EnvOf(r.env))
-         IN [st |-> x.st, bad |-> IF x.e = (IF r.res = "ok" THEN "none" ELSE r.res) THEN {} ELSE {"res"}]
     [] r.op = "load"   ->
          IF r.res = "ok"
          THEN [st |-> [LoadBlocks(s, BlocksOf(r.blocks), 1) EXCEPT !.alloca = AllocaSeq(r.proj.alloca)],
@@ -258,11 +242,6 @@ ApplyHost(s0, r) ==
     [] r.op = "timeren" ->
          ok([s EXCEPT !.devs = [j \in 1..Len(@) |-> IF @[j].k = "timer" /\ @[j].slot = r.slot
                                                      THEN [@[j] EXCEPT !.en = B(r.en)] ELSE @[j]]])
-    [] r.op = "rmdev" ->
-         IF r.id + 1 > Len(s.devs) THEN ok(s)
-         ELSE ok([s EXCEPT !.devs[r.id + 1] = NullDev,
-                           !.ports = IF r.id \in {0, 1, 2} THEN @
-                                     ELSE [a \in { x \in DOMAIN @ : @[x] # r.id } |-> @[a]]])
     [] r.op = "setdev" ->
          ok([s EXCEPT !.devs[r.id + 1] = DevOf(r.dev),
                       !.kbd = IF r.clearbuf = "kbd" THEN <<>> ELSE @,
